@@ -174,12 +174,28 @@ func c10Run(p c10Params) func() {
 			c := c
 			mc.GoEnv(fmt.Sprintf("closer%d", c), func() {
 				at := p.instants[mc.Choose(len(p.instants), mc.Free)]
-				mc.Sleep(mc.Duration(at) * ms)
+				if at > 0 { // (instant 0: Close is the first thing this goroutine does, whenever it is scheduled - also before the goroutines the constructor started have run)
+					mc.Sleep(mc.Duration(at) * ms)
+				}
 				mc.Log(Call{"Close", c})
 				t0 := mc.Now()
 				usable := sock.Usable
 				t.Close()
 				mc.Log(Ret{"Close", c, fmt.Sprintf("usable=%v", usable), t0})
+				if p.closers == 1 && !p.reader {
+					// "After Close has returned, Inbound is closed": looked at without waiting, by the
+					// goroutine that called Close (telegrams that were still on offer may come first)
+					for {
+						c0 := mc.RecvC(t.Inbound())
+						if mc.Select(true, c0) != 0 {
+							mc.Log(Note("inbound open when Close returned"))
+							break
+						}
+						if !c0.Ok {
+							break
+						}
+					}
+				}
 				done.Send(1)
 			})
 		}
@@ -274,6 +290,9 @@ func c10Oracle(p c10Params) func(tr *mc.Trace) []h.Violation {
 					}
 				}
 			case Note:
+				if x == "inbound open when Close returned" {
+					bad("inbound-open-when-close-returned", "Close (the only one) returned at %v; a receive on Inbound that does not wait found the channel neither closed nor offering a telegram", e.T)
+				}
 				if strings.HasPrefix(string(x), "assigned channel ") {
 					fmt.Sscanf(string(x), "assigned channel %d", &assigned)
 				}
